@@ -252,8 +252,12 @@ impl Property for C15Prop {
         if nlate > 0 {
             script.push(Step::Producers { ids: (1..=nlate).collect() });
         }
-        // give the invokes time to start before the parent addresses them
-        script.push(Step::Quiesce);
+        // give the invokes time to start before the parent addresses them - or not: a send to a child that is
+        // registered but has not begun to run is queued for it, one to a child that is not registered yet fails
+        // with an error event (C12's business)
+        if rng.chance(2, 3) {
+            script.push(Step::Quiesce);
+        }
         script.push(Step::Producers { ids: vec![0] });
         script.extend(driver_sends);
         script.push(Step::Quiesce);
